@@ -45,7 +45,7 @@ ASSUMPTIONS = [
     'dialogue harness: the checking thread waits (bounded wall clock, expiry = inconclusive) until its own select() sees the kernel state the peer action '
     'produces, then ticks a bounded number of times; verdicts are on the resulting streams only',
 ]
-REQUIRED = ['descriptor_registered_by_number', 'descriptor_number_zero_registered', 'closed_object_number_reused_by_new_registration', 'intfd_control_events_seen', 'change_inside_select_call', 'inselect_control_event_seen', 'iter_select', 'iter_poll', 'iter_epoll', 'reader_ready_emitted', 'writer_ready_emitted', 'registered_not_ready_silent',
+REQUIRED = ['second_component_registers_the_other_role', 'one_of_two_registering_components_left', 'event_addressed_to_the_component_that_remained', 'descriptor_registered_by_number', 'descriptor_number_zero_registered', 'closed_object_number_reused_by_new_registration', 'intfd_control_events_seen', 'change_inside_select_call', 'inselect_control_event_seen', 'iter_select', 'iter_poll', 'iter_epoll', 'reader_ready_emitted', 'writer_ready_emitted', 'registered_not_ready_silent',
             'ready_not_registered_silent', 'remove_one_role_other_stays', 'readd_after_discard', 'owner_changed_after_discard',
             'send_buffer_full_not_writable', 'writable_again_after_drain', 'peer_closed_hup', 'disconnect_instead_of_write', 'half_close_read',
             'peer_reset', 'discard_then_close', 'close_then_discard', 'close_without_discard', 'fd_number_reused',
@@ -67,6 +67,7 @@ LEVEL_TEXT = ('Random and fixed histories of registration operations and peer ac
 LEVEL_NOTE = ('Trusted: the harness-side select()/poll() measurement and the set model. Histories are sampled. KQueue, TLS and UDP are not exercised; '
               'AF_UNIX pairs in the raw harness, TCP loopback in the dialogue harness.')
 
+AMBIGUOUS = '<two components hold registrations of this descriptor>'
 KEY_A = 'poll.discard-after-close-keeps-registration'
 KEY_B = 'poll.closed-without-discard-fd-reuse'
 
@@ -137,6 +138,9 @@ class RawWorld:
         self.R = set()
         self.W = set()
         self.target = {}
+        self.own = {}         # (key, 'R'|'W') -> channel of the component that made that registration
+        self.took_over = set()
+        self.latest = {}      # key -> role ('R'|'W') registered most recently
         self.discarded = set()      # discarded and not registered since
         self.zombies = set()        # closed while registered, never discarded
         self.gone = set()           # closed descriptors the poller was allowed to drop (notification seen / preened)
@@ -239,7 +243,9 @@ class RawWorld:
                 return          # double registration is outside the statement
             chan = 'c%d' % op[2]
             if k in self.target and self.target[k] != chan:
-                return          # two owners at once are outside the statement
+                # another component registers the descriptor for the other role while the first one's registration stands: while both
+                # stand, whose channel an event goes to is not stated; once one of them has left it is the remaining component's
+                self.marks.add('second_component_registers_the_other_role')
             if k in self.discarded:
                 self.marks.add('readd_after_discard')
                 if self.was_discarded.get(k) not in (None, chan):
@@ -251,7 +257,9 @@ class RawWorld:
             self.item_of[k] = item
             (p.addReader if name == 'addR' else p.addWriter)(self.srcs[op[2]], item)
             role.add(k)
-            self.target[k] = chan
+            self.own[(k, name[-1])] = chan
+            self.latest[k] = name[-1]
+            self._retarget(k)
             self.discarded.discard(k)
             self.gone.discard(k)
         elif name in ('rmR', 'rmW'):
@@ -266,8 +274,10 @@ class RawWorld:
                     self.marks.add('remove_one_role_other_stays')
             (p.removeReader if name == 'rmR' else p.removeWriter)(item)
             role.discard(k)
-            if k not in other:
-                self.target.pop(k, None)
+            if self.own.pop((k, name[-1]), None) is not None and self.target.get(k) == AMBIGUOUS:
+                self.marks.add('one_of_two_registering_components_left')
+                self.took_over.add(k)
+            self._retarget(k)
         elif name in ('discard', 'discard_old'):
             if name == 'discard_old':
                 if sl.prev is None or self.as_int:
@@ -289,7 +299,8 @@ class RawWorld:
             p.discard(item)
             self.R.discard(k)
             self.W.discard(k)
-            self.target.pop(k, None)
+            self._retarget(k)
+            self.took_over.discard(k)
             self.zombies.discard(k)
             self.gone.discard(k)
             self.discarded.add(k)
@@ -422,9 +433,21 @@ class RawWorld:
             for name, item, chans in events:      # keep the model in step with auto-discards
                 if name == '_disconnect':
                     k = self.key(item)
-                    self.R.discard(k), self.W.discard(k), self.target.pop(k, None)
+                    self.R.discard(k), self.W.discard(k), self._retarget(k)
             return
         self.evaluate(events, pre)
+
+    def _retarget(self, k):
+        """expected address of events for k: the channel of the component holding its registration(s); AMBIGUOUS while two hold one each"""
+        if k not in self.R:
+            self.own.pop((k, 'R'), None)
+        if k not in self.W:
+            self.own.pop((k, 'W'), None)
+        owners = {self.own[x] for x in ((k, 'R'), (k, 'W')) if x in self.own}
+        if not owners:
+            self.target.pop(k, None)
+        else:
+            self.target[k] = owners.pop() if len(owners) == 1 else AMBIGUOUS
 
     def ok(self, clause, n=1):
         self.counts[clause] = self.counts.get(clause, 0) + n
@@ -474,9 +497,9 @@ class RawWorld:
                     else:
                         self.problem('DISCONNECT_ONLY_IF_HUNG_UP', '_disconnect for a registered descriptor that is not hung up', descriptor=who,
                                      ready=ready.get(k))
-                    if T0.get(k) is not None and chans != (T0[k],):
+                    if T0.get(k) is not None and T0[k] != AMBIGUOUS and chans != (T0[k],):
                         self.problem('ADDRESS', '_disconnect addressed to the wrong channel', descriptor=who, channels=repr(chans)[:120], expected=T0[k])
-                    self.R.discard(k), self.W.discard(k), self.target.pop(k, None)   # auto-discard
+                    self.R.discard(k), self.W.discard(k), self._retarget(k)   # auto-discard
                     self.tainted.add(k)
                 else:
                     self.problem('SOUND_REGISTERED', '_disconnect for a descriptor that is not registered', descriptor=who)
@@ -496,8 +519,22 @@ class RawWorld:
             else:
                 self.ok(clause)
                 self.marks.add('reader_ready_emitted' if idx == 0 else 'writer_ready_emitted')
-                if chans == (T0.get(k),):
+                if T0.get(k) == AMBIGUOUS:
+                    # two components hold one role each.  The role registered last: its events go to the component that registered it.  The
+                    # other role's events are not asserted (a descriptor has ONE target channel in this design - _disconnect and _error
+                    # have no role -, and it is the last registrant's)
+                    self.marks.add('event_while_two_components_hold_registrations')
+                    role = 'R' if name == '_read' else 'W'
+                    if self.latest.get(k) == role and (k, role) in self.own:
+                        if chans == (self.own[(k, role)],):
+                            self.ok('ADDRESS')
+                        else:
+                            self.problem('ADDRESS', '%s addressed to the wrong channel (two components hold registrations; this role was registered last)' % name,
+                                         descriptor=who, channels=repr(chans)[:120], expected=self.own[(k, role)])
+                elif chans == (T0.get(k),):
                     self.ok('ADDRESS')
+                    if k in self.took_over:
+                        self.marks.add('event_addressed_to_the_component_that_remained')
                 else:
                     self.problem('ADDRESS', '%s addressed to the wrong channel' % name, descriptor=who, channels=repr(chans)[:120], expected=T0.get(k))
                 norm.add((name,) + self.info[k] + (chans[0] if chans and isinstance(chans[0], str) else repr(chans)[:60],))
@@ -981,6 +1018,12 @@ def corpus():
     # re-add after discard with another owner (the target map must follow)
     cs.append(raw([['addR', 0, 0], ['addW', 0, 0], ['peer_send', 0, 2], ['discard', 0], ['addW', 0, 1], ['addR', 0, 1], ['discard', 0],
                    ['addR', 0, 2], ['rmR', 0], ['addW', 0, 0], ['peer_send', 1, 1], ['addR', 1, 2], ['discard', 1], ['addR', 1, 0]]))
+    # another component registers the other role of a descriptor; then one of the two leaves: events go to the one that remains
+    # (later registrant remains / earlier registrant remains / reader remains / writer remains)
+    cs.append(raw([['addR', 0, 0], ['addW', 0, 1], ['rmR', 0], ['nop', 0], ['peer_send', 0, 1], ['addR', 0, 1], ['rmW', 0], ['nop', 0], ['discard', 0]]))
+    cs.append(raw([['addR', 0, 0], ['peer_send', 0, 2], ['addW', 0, 1], ['rmW', 0], ['nop', 0], ['consume', 0], ['nop', 0], ['rmR', 0]]))
+    cs.append(raw([['addW', 1, 2], ['addR', 1, 0], ['peer_send', 1, 1], ['rmW', 1], ['nop', 1], ['addW', 1, 1], ['rmR', 1], ['nop', 1], ['rmW', 1]]))
+    cs.append(raw([['addW', 2, 2], ['addR', 2, 0], ['rmR', 2], ['nop', 2], ['peer_send', 2, 3], ['addR', 2, 2], ['nop', 2], ['discard', 2]]))
     # send buffer full => registered writer is silent; drained => reported again
     cs.append(raw([['addW', 0, 0], ['fill', 0], ['addR', 0, 0], ['peer_send', 0, 1], ['drain', 0], ['fill', 0], ['rmR', 0], ['drain', 0],
                    ['rmW', 0], ['fill', 1], ['addW', 1, 2], ['addR', 1, 2], ['drain', 1]]))
@@ -1073,11 +1116,14 @@ def gen_raw(rng):
             if c in ('addR', 'addW'):
                 if owner[i] is None:
                     owner[i] = rng.randrange(NSRC)
+                who = owner[i]
+                if (regR[i] or regW[i]) and rng.random() < 0.25:
+                    who = rng.randrange(NSRC)      # another component registers the other role
                 if c == 'addR':
                     regR[i] = True
                 else:
                     regW[i] = True
-                return [[c, i, owner[i]]]
+                return [[c, i, who]]
             if c == 'rmR':
                 regR[i] = False
             elif c == 'rmW':
@@ -1506,6 +1552,11 @@ def objreuse_cases(b):
                 while len(root):
                     root.flush()
 
+            # (descriptor numbers are handed out lowest-first: nothing may be freed behind the harness's back between the close and the next
+            # socketpair - collect what earlier cases left behind now, and keep the collector quiet until the numbers are taken)
+            import gc
+            gc.collect()
+            gc.disable()
             a, a_peer = _socket.socketpair()
             number = a.fileno()
             if role == 'reader':
@@ -1517,6 +1568,7 @@ def objreuse_cases(b):
             del seen[:], excs[:]
             a.close()                                   # closed, never discarded
             nb, nb_peer = _socket.socketpair()
+            gc.enable()
             case = {'family': 'objreuse', 'poller': pname, 'role': role}
             if nb.fileno() != number and nb_peer.fileno() != number:
                 b.inconclusive_because('the freed descriptor number was not handed to the next socket')
